@@ -294,6 +294,23 @@ def gen(ctx):
                     if before is not None:
                         sc["before"] = before
                     cases.append(sc)
+    # clean-up (needs >= MAX_RECORDS_COUNT/10 = 1638 records and a range) followed by a restart: the removals made
+    # by clean-up are removals like any other -- once their deletes have run they must stay removed
+    import os
+    for n in ([1638] if quick else [1638, 1700]):
+        if os.environ.get("VERIF_SKIP_BIG"):
+            continue
+        keys = gen_keys(rng, n, False)
+        vals = [bytes([0x91, 1, 7]), bytes([0x91, 1, 8])]
+        case_peer = bytes(rng.getrandbits(8) for _ in range(32))
+        byd = sorted(range(n), key=lambda k: base.py_distance(case_peer, keys[k]))
+        ops = [{"op": "put", "k": k, "v": 0, "t": 0, "nodump": True} for k in range(n)]
+        ops += [{"op": "settle"}, {"op": "set_range_at", "k": byd[n // 2], "delta": 0, "nodump": True},
+                {"op": "cleanup"}, {"op": "settle"}, {"op": "crash", "tears": []},
+                {"op": "get", "k": byd[0], "nodump": True}, {"op": "get", "k": byd[-1], "nodump": True}]
+        cc = mk_case(rng, keys, vals, ops, 16384, 25, "cleanup-then-restart-%d" % n)
+        cc["cfg"]["peer"] = case_peer.hex()
+        cases.append(cc)
     # every byte prefix of one pending write (overwrite of a completed record), a second file complete
     for rep in range(1 if quick else 12):
         keys = gen_keys(rng, 3, False)
